@@ -163,6 +163,13 @@ pub fn gen_rule(r: &mut Rng, extended: bool, want_valid: bool, tag: Option<u32>)
                     _ => day_spec_any(r),
                 };
                 (a, b)
+            } else if r.chance(1, 8) {
+                // neighbouring days of the year (the two changes come within hours of each other every year)
+                let n = 1 + r.below(364) as u16;
+                let a = if r.chance(1, 2) { DaySpec::J1(n) } else { DaySpec::J0(n) };
+                let m = (n as i64 + r.range(-1, 1)).clamp(1, 365) as u16;
+                let b = if r.chance(1, 2) { DaySpec::J1(m) } else { DaySpec::J0(m) };
+                (a, b)
             } else {
                 (day_spec(r), day_spec(r))
             };
@@ -171,7 +178,8 @@ pub fn gen_rule(r: &mut Rng, extended: bool, want_valid: bool, tag: Option<u32>)
         if !spec.printable() {
             continue;
         }
-        if !want_valid || spec.build().is_some() {
+        // (a rule that alternates cleanly through 400 years is valid whatever the library's constructor says)
+        if !want_valid || spec.build().is_some() || (spec.parts_build() && crate::refmodel::rule_clearly_consistent(&spec) == Some(true)) {
             return spec;
         }
     }
@@ -287,6 +295,14 @@ pub fn gen_zone(r: &mut Rng, o: ZoneOpts) -> ZoneSpec {
                 Some(n) if !o.i32_times || n < i32::MAX as i64 => t = n,
                 _ => break,
             }
+        }
+    }
+    if !o.i32_times && !trans.is_empty() && r.chance(1, 12) {
+        // a first transition at one of the values tools use as placeholders ("Big Bang" -2^59, the minimum,
+        // -2^62, the 32-bit minimum): it is a transition like any other
+        let v = [-(1i64 << 59), -(1i64 << 59) + 1, -(1i64 << 59) - 1, i64::MIN, i64::MIN + 1, -(1i64 << 62), i32::MIN as i64, i32::MIN as i64 - 1, -(1i64 << 31) * 2][r.usize(9)];
+        if trans.len() == 1 || v < trans[1].0 {
+            trans[0].0 = v;
         }
     }
     if r.chance(1, 10) && trans.len() > ntypes {
@@ -609,7 +625,18 @@ pub fn gen_contents_basic(r: &mut Rng, sc: &mut Scenario, n: usize, allow_invali
         let c = match r.below(10) {
             0 | 1 => Content::Corpus(corpus_pick(&mut *r)),
             2 if i > 0 => Content::Typed { base: r.usize(i), kind: r.pick(TYPED_KINDS).to_string(), arg: r.next() % 100_000 },
-            3 if allow_invalid => Content::Hex((0..r.below(60)).map(|_| r.next() as u8).collect()),
+            3 if allow_invalid => {
+                if r.chance(1, 2) {
+                    // a text file holding a valid TZ description (not a TZif file: must be a decoding error wherever it is read)
+                    let mut t = gen_rule(r, false, true, None).print(r.below(32) as u8).into_bytes();
+                    if r.chance(1, 2) {
+                        t.push(b'\n');
+                    }
+                    Content::Hex(t)
+                } else {
+                    Content::Hex((0..r.below(60)).map(|_| r.next() as u8).collect())
+                }
+            }
             _ => Content::Gen(gen_zone(r, ZoneOpts { tag: Some(i as u32 * 7 + 1), dense: false, allow_invalid, allow_huge: false, i32_times: false })),
         };
         sc.contents.push(c);
